@@ -199,17 +199,21 @@ theorem snapshot_json_eq (cl : Cluster) (b : KBinding) :
 def btypeOf : OKind → BType
   | .schedule => .schedule | .validating => .validating | .mutating => .mutating | .conversion => .conversion
 
-/-- Well-formed origin: the binding is a binding of the hook and is found under its own name
-(`getIncludeSnapshotsFrom` and `SnapshotsFor` look bindings up by name), and a binding that
-includes snapshots belongs to a hook that has kubernetes bindings (enforced by the loader).
-This hypothesis excludes exactly the class of the recorded finding `same-name-bindings` (two bindings
-of one type that share a name, e.g. two unnamed kubernetes bindings: both are called "kubernetes");
+/-- Well-formed origin: a binding that includes snapshots belongs to a hook that has kubernetes
+bindings (enforced by the loader); a kubernetes binding is a binding of the hook; and — only for a
+Synchronization context, whose `objects` `UpdateSnapshots` refreshes through `SnapshotsFor(name)` — the
+kubernetes binding is found under its own name.
+Bindings of one type may share a name (every unnamed schedule binding is called "schedule"): the
+context carries the include list of its own binding and `UpdateSnapshots` (repaired) prefers it to the
+lookup by name, so nothing is asked of schedule / admission / conversion / Event origins.
+The last conjunct excludes exactly the class of the recorded finding `same-name-bindings` (two
+*kubernetes* bindings that share a name, e.g. two unnamed ones: both are called "kubernetes");
 the theorems that need it are named `…_partial`, the excluded point is `same_name_witness`. -/
 def WF (h : Hook) : Origin → Prop
   | .onStartup => True
-  | .other b _ => includeOf h (btypeOf b.kind) b.name = b.inc ∧ (b.inc ≠ [] → h.kbs ≠ [])
-  | .kubeSync b => includeOf h .kubernetes b.name = b.inc ∧ findKB h b.name = some b
-  | .kubeEvent b _ _ => includeOf h .kubernetes b.name = b.inc ∧ findKB h b.name = some b
+  | .other b _ => b.inc ≠ [] → h.kbs ≠ []
+  | .kubeSync b => findKB h b.name = some b
+  | .kubeEvent b _ _ => b ∈ h.kbs
 
 theorem snapshotsJ_eq (h : Hook) (cl : Cluster) (inc : List String) :
     snapshotsJ (inc.map (fun n => (n, (snapshotsFor h cl n).getD []))) =
@@ -240,14 +244,14 @@ theorem updateSnapshots_fields (h : Hook) (cl : Cluster) (c : Ctx) :
 
 theorem updateSnapshots_snapshots (h : Hook) (cl : Cluster) (c : Ctx) (hkb : h.kbs.isEmpty = false) :
     (updateSnapshots h cl c).snapshots =
-      (includeOf h c.btype c.binding).map (fun name => (name, (snapshotsFor h cl name).getD [])) := by
+      (if c.includeSnapshots.length = 0 then includeOf h c.btype c.binding else c.includeSnapshots).map
+        (fun name => (name, (snapshotsFor h cl name).getD [])) := by
   unfold updateSnapshots
   by_cases hs : c.btype = BType.kubernetes ∧ c.type = "Synchronization" <;> simp [hkb, hs]
 
 /-- The "snapshots" step after `UpdateSnapshots` = the documented `snapshots` field. -/
 theorem snapPart_eq (h : Hook) (cl : Cluster) (c : Ctx) (inc : List String)
-    (hinc : c.includeSnapshots = inc) (hall : c.includeAll = false)
-    (hof : includeOf h c.btype c.binding = inc) (hk : inc ≠ [] → h.kbs ≠ []) :
+    (hinc : c.includeSnapshots = inc) (hall : c.includeAll = false) (hk : inc ≠ [] → h.kbs ≠ []) :
     snapPart (updateSnapshots h cl c) = Spec.snapshotsField h cl inc := by
   obtain ⟨_, _, _, _, _, _, _, _, _, hi, ha⟩ := updateSnapshots_fields h cl c
   unfold snapPart Spec.snapshotsField
@@ -260,9 +264,9 @@ theorem snapPart_eq (h : Hook) (cl : Cluster) (c : Ctx) (inc : List String)
       cases hh : h.kbs with
       | nil => exact absurd hh this
       | cons _ _ => rfl
-    rw [updateSnapshots_snapshots h cl c hkb, hof]
+    rw [updateSnapshots_snapshots h cl c hkb, hinc]
     simp only [List.length_cons, Nat.zero_lt_succ, decide_true, Bool.or_false, if_true, List.isEmpty_cons,
-      Bool.false_eq_true, if_false, List.length_map]
+      Bool.false_eq_true, if_false, List.length_map, Nat.succ_ne_zero]
     rw [snapshotsJ_eq]
 
 theorem updateSnapshots_objects_event (h : Hook) (cl : Cluster) (c : Ctx) (ht : c.type ≠ "Synchronization") :
@@ -292,42 +296,38 @@ theorem mapV1_eq_spec_partial (h : Hook) (cl : Cluster) (o : Origin) (hwf : WF h
   | onStartup =>
     unfold mapV1; rw [h1, h2]; simp [mkCtx, Spec.fieldsV1]
   | other b uid =>
-    obtain ⟨hof, hk⟩ := hwf
+    have hk := hwf
     obtain ⟨kind, name, group, inc, fromV, toV⟩ := b
     cases kind with
     | schedule =>
-      have hsnap := snapPart_eq h cl (mkCtx (.other ⟨.schedule, name, group, inc, fromV, toV⟩ uid)) inc rfl rfl
-        (by simpa [mkCtx, btypeOf] using hof) hk
+      have hsnap := snapPart_eq h cl (mkCtx (.other ⟨.schedule, name, group, inc, fromV, toV⟩ uid)) inc rfl rfl hk
       unfold mapV1 typePart
       rw [hsnap, h1, h2, h3, h4, h6, h7, h8]
       simp only [mkCtx, Spec.fieldsV1, Spec.groupFields]
       by_cases hg : group = "" <;> simp [hg]
     | validating =>
-      have hsnap := snapPart_eq h cl (mkCtx (.other ⟨.validating, name, group, inc, fromV, toV⟩ uid)) inc rfl rfl
-        (by simpa [mkCtx, btypeOf] using hof) hk
+      have hsnap := snapPart_eq h cl (mkCtx (.other ⟨.validating, name, group, inc, fromV, toV⟩ uid)) inc rfl rfl hk
       unfold mapV1 typePart
       rw [hsnap, h1, h2, h3, h4, h6, h7, h8]
       simp only [mkCtx, Spec.fieldsV1]
       simp
     | mutating =>
-      have hsnap := snapPart_eq h cl (mkCtx (.other ⟨.mutating, name, group, inc, fromV, toV⟩ uid)) inc rfl rfl
-        (by simpa [mkCtx, btypeOf] using hof) hk
+      have hsnap := snapPart_eq h cl (mkCtx (.other ⟨.mutating, name, group, inc, fromV, toV⟩ uid)) inc rfl rfl hk
       unfold mapV1 typePart
       rw [hsnap, h1, h2, h3, h4, h6, h7, h8]
       simp only [mkCtx, Spec.fieldsV1]
       simp
     | conversion =>
-      have hsnap := snapPart_eq h cl (mkCtx (.other ⟨.conversion, name, group, inc, fromV, toV⟩ uid)) inc rfl rfl
-        (by simpa [mkCtx, btypeOf] using hof) hk
+      have hsnap := snapPart_eq h cl (mkCtx (.other ⟨.conversion, name, group, inc, fromV, toV⟩ uid)) inc rfl rfl hk
       unfold mapV1 typePart
       rw [hsnap, h1, h2, h3, h4, h6, h7, h8]
       simp only [mkCtx, Spec.fieldsV1]
       simp
   | kubeSync b =>
-    obtain ⟨hof, hf⟩ := hwf
+    have hf : findKB h b.name = some b := hwf
     have hkne : b.inc ≠ [] → h.kbs ≠ [] := by
       intro _ hh; simp [findKB, hh] at hf
-    have hsnap := snapPart_eq h cl (mkCtx (.kubeSync b)) b.inc rfl rfl (by simpa [mkCtx] using hof) hkne
+    have hsnap := snapPart_eq h cl (mkCtx (.kubeSync b)) b.inc rfl rfl hkne
     have hobj := updateSnapshots_objects_sync h cl (mkCtx (.kubeSync b)) b rfl rfl (by simpa [mkCtx] using hf)
     unfold mapV1 typePart
     rw [hsnap, h1, h2, h3, h4, h5, hobj]
@@ -343,10 +343,10 @@ theorem mapV1_eq_spec_partial (h : Hook) (cl : Cluster) (o : Origin) (hwf : WF h
       · simp [hl, snapshot_json_eq]
     · simp [mkCtx, hg]
   | kubeEvent b we obj =>
-    obtain ⟨hof, hf⟩ := hwf
+    have hf : b ∈ h.kbs := hwf
     have hkne : b.inc ≠ [] → h.kbs ≠ [] := by
-      intro _ hh; simp [findKB, hh] at hf
-    have hsnap := snapPart_eq h cl (mkCtx (.kubeEvent b we obj)) b.inc rfl rfl (by simpa [mkCtx] using hof) hkne
+      intro _ hh; simp [hh] at hf
+    have hsnap := snapPart_eq h cl (mkCtx (.kubeEvent b we obj)) b.inc rfl rfl hkne
     have hobj := updateSnapshots_objects_event h cl (mkCtx (.kubeEvent b we obj)) (by simp [mkCtx])
     unfold mapV1 typePart
     rw [hsnap, h1, h2, h3, h4, h5, hobj]
@@ -606,15 +606,135 @@ theorem exWF : ∀ o ∈ exOs, WF exHook o := by
   simp only [exOs, List.mem_cons, List.not_mem_nil, or_false] at ho
   rcases ho with rfl | rfl | rfl | rfl
   · trivial
-  · exact ⟨by decide, rfl⟩
-  · exact ⟨by decide, rfl⟩
-  · exact ⟨by decide, by decide⟩
+  · rfl
+  · simp [WF, exHook]
+  · simp [WF, exHook]
 example : runFile .v1 exHook exCl exOs = some (Spec.expectedFile .v1 exHook exCl exOs) :=
   run_file_v1_eq_expected_partial exHook exCl exOs exWF
 example : (runFile .v1 exHook exCl [.kubeSync exK1]).map J.print =
     some "[{\"binding\":\"k1\",\"objects\":[{\"filterResult\":3}],\"snapshots\":{\"k1\":[{\"filterResult\":3}]},\"type\":\"Synchronization\"}]" := by
   decide
 
+
+/-! ## `snapshots` is present exactly when the binding includes snapshots — on the rendered item, for
+every hook and every origin, bindings sharing a name included -/
+
+theorem ofr_map_no_snapshots (o : OFR) : "snapshots" ∉ o.map.map Prod.fst := by
+  obtain ⟨jq, rem, ob, fr⟩ := o
+  cases jq <;> cases rem <;> rcases fr with _ | ⟨_ | _, a, _ | d⟩ | v <;> simp [OFR.map]
+
+/-- No branch of `MapV1` after the "snapshots" step assigns `snapshots`. -/
+theorem typePart_no_snapshots (c : Ctx) : "snapshots" ∉ (typePart c).map Prod.fst := by
+  unfold typePart
+  repeat' split
+  all_goals (first | (simp; done) | skip)
+  all_goals
+    rename_i o _ _
+    have := ofr_map_no_snapshots o
+    simp only [List.map_append, List.mem_append, not_or]
+    exact ⟨by simp, this⟩
+
+theorem mkCtx_include (o : Origin) : (mkCtx o).includeSnapshots = incOf o ∧ (mkCtx o).includeAll = false := by
+  cases o with
+  | onStartup => simp [mkCtx, incOf]
+  | other b uid => obtain ⟨kind, name, group, inc, fromV, toV⟩ := b; cases kind <;> simp [mkCtx, incOf]
+  | kubeSync b => simp [mkCtx, incOf]
+  | kubeEvent b we obj => simp [mkCtx, incOf]
+
+theorem mkCtx_onStartup_iff (o : Origin) : (mkCtx o).btype = .onStartup → incOf o = [] := by
+  cases o with
+  | onStartup => simp [incOf]
+  | other b uid => obtain ⟨kind, name, group, inc, fromV, toV⟩ := b; cases kind <;> simp [mkCtx]
+  | kubeSync b => simp [mkCtx]
+  | kubeEvent b we obj => simp [mkCtx]
+
+/-- **C09 snapshots present iff included, on the rendered item.** For every hook — bindings of one type
+may share a name, the hook may have no kubernetes binding at all —, every cluster content and every
+context the controllers produce: the item `MapV1` renders after `UpdateSnapshots` has the key
+`snapshots` exactly when the binding the context comes from includes snapshots (its effective
+includeSnapshotsFrom list is not empty). No well-formedness hypothesis: whatever the by-name fallback
+of `UpdateSnapshots` puts into the `Snapshots` map, `MapV1` decides by the context's own metadata. -/
+theorem rendered_snapshots_iff_included (h : Hook) (cl : Cluster) (o : Origin) :
+    "snapshots" ∈ (J.mkObj (mapV1 (updateSnapshots h cl (mkCtx o)))).keys ↔ incOf o ≠ [] := by
+  obtain ⟨h1, _, _, _, _, _, _, _, _, hi, ha⟩ := updateSnapshots_fields h cl (mkCtx o)
+  obtain ⟨hinc, hall⟩ := mkCtx_include o
+  rw [mem_keys_mkObj]
+  unfold mapV1
+  rw [h1]
+  by_cases hs : (mkCtx o).btype = .onStartup
+  · simp [hs, mkCtx_onStartup_iff o hs]
+  · have hnt := typePart_no_snapshots (updateSnapshots h cl (mkCtx o))
+    simp only [hs, if_false, List.map_append, List.mem_append, List.map_cons, List.map_nil, List.mem_cons,
+      List.not_mem_nil, or_false, hnt]
+    unfold snapPart
+    rw [hi, ha, hinc, hall]
+    cases hio : incOf o <;> simp
+
+/-- The clause the driver evaluates on every item the implementation shows (`oracle snapshots`) holds
+of the item the model renders — v1 … -/
+theorem snapshots_clause_v1 (h : Hook) (cl : Cluster) (o : Origin) :
+    Spec.snapshotsClause .v1 o
+      (decide ("snapshots" ∈ (J.mkObj (mapV1 (updateSnapshots h cl (mkCtx o)))).keys)) = true := by
+  have := rendered_snapshots_iff_included h cl o
+  unfold Spec.snapshotsClause
+  cases hi : incOf o with
+  | nil => simp [hi] at this; simp [this]
+  | cons n rest => simp [hi] at this; simp [this]
+
+/-- … and v0: a v0 item never has `snapshots`. -/
+theorem snapshots_clause_v0 (h : Hook) (cl : Cluster) (o : Origin) (l : List (String × J))
+    (hm : mapV0 (updateSnapshots h cl (mkCtx o)) = some l) :
+    Spec.snapshotsClause .v0 o (decide ("snapshots" ∈ (J.mkObj l).keys)) = true := by
+  have hno : "snapshots" ∉ (J.mkObj l).keys := by
+    rw [mem_keys_mkObj]
+    unfold mapV0 at hm
+    by_cases hb : (updateSnapshots h cl (mkCtx o)).btype ≠ .kubernetes
+    · simp [hb] at hm; subst hm; simp
+    · simp only [hb, if_false] at hm
+      cases hobj : (updateSnapshots h cl (mkCtx o)).objects with
+      | nil => simp [hobj] at hm; subst hm; simp
+      | cons x rest =>
+        simp only [hobj] at hm
+        cases hx : x.object with
+        | none => simp [hx] at hm
+        | some obj => simp [hx] at hm; subst hm; simp
+  simp [Spec.snapshotsClause, hno]
+
+/-! Bindings of one type sharing a name: two unnamed schedule bindings (both are called "schedule"), the
+first includes the snapshot of `pods`, the second includes nothing. -/
+def shK : KBinding := { name := "pods", ns := "a", cfg := { types := [.added], filter := none, keep := true } }
+def shS1 : OBinding := { kind := .schedule, name := "schedule", inc := ["pods"] }
+def shS2 : OBinding := { kind := .schedule, name := "schedule" }
+def shHook : Hook := { kbs := [shK], obs := [shS1, shS2] }
+def shCl : Cluster := [("a", "o1", .obj [("n", .num 1)])]
+
+/-- Non-vacuity: both contexts are well-formed origins, the whole file is the documented one, the second
+item has no `snapshots` — although the by-name fallback of `UpdateSnapshots` did fill its `Snapshots`
+map from the first binding called "schedule". -/
+example : (∀ o ∈ [Origin.other shS2 "", .other shS1 ""], WF shHook o)
+    ∧ (runFile .v1 shHook shCl [.other shS2 ""]).map J.print = some "[{\"binding\":\"schedule\",\"type\":\"Schedule\"}]"
+    ∧ (runFile .v1 shHook shCl [.other shS1 ""]).map J.print =
+        some "[{\"binding\":\"schedule\",\"snapshots\":{\"pods\":[{\"object\":{\"n\":1}}]},\"type\":\"Schedule\"}]"
+    ∧ (updateSnapshots shHook shCl (mkCtx (.other shS2 ""))).snapshots.length = 1 := by
+  refine ⟨?_, by decide, by decide, by decide⟩
+  intro o ho
+  simp only [List.mem_cons, List.not_mem_nil, or_false] at ho
+  rcases ho with rfl | rfl <;> simp [WF, shHook]
+
+example : runFile .v1 shHook shCl [.other shS2 "", .other shS1 ""] =
+    some (Spec.expectedFile .v1 shHook shCl [.other shS2 "", .other shS1 ""]) :=
+  run_file_v1_eq_expected_partial shHook shCl _ (by
+    intro o ho
+    simp only [List.mem_cons, List.not_mem_nil, or_false] at ho
+    rcases ho with rfl | rfl <;> simp [WF, shHook])
+
+/-- Witness for the seeded change C09-w3m2 (presence of `snapshots` read off the filled map): the
+context of the second "schedule" binding gets `snapshots` although it includes none — replayed on the
+real code by the corpus cases "bindings sharing a name". -/
+theorem snapshots_from_filled_map_witness :
+    (snapPartFromFilledMap (updateSnapshots shHook shCl (mkCtx (.other shS2 "")))).map Prod.fst = ["snapshots"]
+    ∧ snapPart (updateSnapshots shHook shCl (mkCtx (.other shS2 ""))) = []
+    ∧ incOf (.other shS2 "") = [] := by decide
 
 /-! ## The excluded point: two bindings with the same name (finding `same-name-bindings`) -/
 
